@@ -28,6 +28,7 @@ type Failure struct {
 	Observed string  `json:"observed"`
 	Expected string  `json:"expected"`
 	V        *VCase  `json:"v,omitempty"`
+	Ops      []HOp   `json:"ops,omitempty"`
 }
 
 func mkF(fam, kind, fn string, p Params, x float64, obs, exp string) Failure {
@@ -347,6 +348,11 @@ func hunt(o Opts) {
 				if f == nil || f.Name == "FDelta" {
 					continue
 				}
+				if c.Ops != nil {
+					histCheck(f, ad.Real64Type, c.P, c.Ops, NewRng(o.Seed+5), report, &tried)
+					histCheck(f, ad.Float64Type, c.P, c.Ops, NewRng(o.Seed+5), report, &tried)
+					continue
+				}
 				checkPoint(f, c.P, c.X)
 				if c.Fn != "LogPdf" && c.Fn != "Ctor" {
 					cdfChecks(f, c.P, report, &tried, []float64{c.X})
@@ -402,6 +408,8 @@ func hunt(o Opts) {
 		}
 	}
 	vecHunt(o, report, &tried)
+	histHunt(o, report, &tried)
+	vhistHunt(o, report, &tried)
 	// unnormalised categorical weights: the textbook family needs sum theta = 1
 	if f := famByName("FCategorical"); f != nil {
 		p := Params{[]float64{0.25, 0.5, 4}, nil}
